@@ -290,6 +290,7 @@ let monitor (opsf : string) (obsf : string) (outf : string) =
   (* [fresh]: the tracked arena is the state right before the next command (a dump followed the last
      mutating command).  A step can only be judged against the documented effect when it is. *)
   let fresh = ref true in
+  let expect_drop : int list ref = ref [] in
   let lastcmd = ref "" in
   let report prop msg =
     Printf.fprintf oc "MON %s hist=%d step=%d cmd=[%s] %s\n" prop !hist !stepn !lastcmd msg in
@@ -321,6 +322,7 @@ let monitor (opsf : string) (obsf : string) (outf : string) =
                | Some y when nid_eqb y z -> ()
                | other -> report "C11" (Printf.sprintf "the id %s returned at creation is not what lookup by its position gives (%s)" (s_id z) (s_oid other)))
           | ORemove x, OutUnit ->
+              expect_drop := int_of_n (payload_at a0 x) :: !expect_drop;
               bump "C11";
               (match spec_id_at a' (nat_of_int (int_of_nat x.idx + 1)) with
                | Some y when nid_eqb y x -> report "C11" (Printf.sprintf "lookup by position still returns the id %s of a node that was just removed" (s_id x))
@@ -381,7 +383,7 @@ let monitor (opsf : string) (obsf : string) (outf : string) =
                cur := { !cur with mever = v :: !cur.mever }
            | _ -> ()) in
          (match toks with
-          | ["hist"; k] -> hist := int_of_string k; stepn := 0; cur := mfresh (); alt := None; pending := None; fresh := true;
+          | ["hist"; k] -> hist := int_of_string k; stepn := 0; cur := mfresh (); alt := None; pending := None; fresh := true; expect_drop := [];
                            Hashtbl.reset rend_tbl
           | ["new"; v] -> setp (Some (ONew (n_of_int (int_of_string v)))); new_id (int_of_string v)
           | ["appv"; p; v] -> h1 p (fun x -> OAppendValue (x, n_of_int (int_of_string v))); new_id (int_of_string v)
@@ -477,7 +479,10 @@ let monitor (opsf : string) (obsf : string) (outf : string) =
                         let want = "d " ^ String.concat "," (List.map (function None -> "-" | Some y -> s_idx1 y) (de_spec s pulls)) in
                         if want <> obs then begin
                           report "C10" ("pulls " ^ pat ^ " on " ^ which ^ " of " ^ s_id x ^ ": got [" ^ obs ^ "] expected [" ^ want ^ "]");
-                          report "C09" ("iterator " ^ which ^ " of " ^ s_id x ^ " does not yield exactly the documented sequence under pulls " ^ pat ^ ": got [" ^ obs ^ "] expected [" ^ want ^ "]")
+                          report "C09" ("iterator " ^ which ^ " of " ^ s_id x ^ " does not yield exactly the documented sequence under pulls " ^ pat ^ ": got [" ^ obs ^ "] expected [" ^ want ^ "]");
+                          (* more Some-results than the sequence has elements: a node is yielded twice / the iterator is not finite *)
+                          let somes str = List.length (List.filter (fun t -> t <> "-" && t <> "") (String.split_on_char ',' (if String.length str > 2 then String.sub str 2 (String.length str - 2) else ""))) in
+                          if somes obs > List.length s then report "C02" ("iterator " ^ which ^ " of " ^ s_id x ^ " yields more nodes than the sequence has (a node twice) under pulls " ^ pat ^ ": [" ^ obs ^ "]")
                         end
                     | None -> report "C02" "sibling walk does not end"))
           | ["qp"; h; mode] ->
@@ -489,6 +494,10 @@ let monitor (opsf : string) (obsf : string) (outf : string) =
                    if want <> obs then report "C14" ("pretty print of " ^ s_id x ^ " mode " ^ mode ^ ": got [" ^ obs ^ "] expected [" ^ want ^ "]"))
           | ["drops"] ->
               let l = List.filter_map int_of_string_opt (List.tl otoks) in
+              bump "C08";
+              List.iter (fun v -> if not (List.mem v l) then
+                report "C08" (Printf.sprintf "the payload %d of a node removed by the preceding call was not dropped by that call" v)) !expect_drop;
+              expect_drop := [];
               cur := { !cur with mdrops = !cur.mdrops @ l }
           | ["end"] ->
               bump "C08";
